@@ -366,6 +366,22 @@ def _id(ex, args, kw):
     raise OutOfSubset(f"id({v!r})")
 
 
+@builtin("float")
+def _float(ex, args, kw):
+    if not args:
+        return VReal(0)
+    v = args[0]
+    r = ex.as_real_term(v)
+    if r is not None:
+        return VReal(r)
+    return VReal(ex.fresh_const("float_of", z3.RealSort()))
+
+
+@builtin("iter")
+def _iter(ex, args, kw):
+    raise OutOfSubset("iter()")
+
+
 @builtin("print")
 def _print(ex, args, kw):
     return NONE
@@ -453,7 +469,7 @@ def isinstance_term(ex, v, cls):
     return z3.Or(res) if len(res) != 1 else res[0]
 
 
-for _t in ("float", "bytes", "complex", "object", "type"):
+for _t in ("bytes", "complex", "object", "type"):
     BUILTINS[_t] = VFunc("builtin", _t, impl=lambda ex, a, k, _n=_t: (_ for _ in ()).throw(OutOfSubset(f"call of {_n}()")))
 
 
